@@ -83,10 +83,18 @@ pub enum Op {
     Div,
 }
 
-#[derive(Debug, Clone, Eq, Hash)]
+#[derive(Debug, Clone, Eq)]
 pub struct Identifier {
     pub span: Span,
     pub name: String,
+}
+
+// Identifiers are compared by name only, so they have to be hashed by name only
+// as well: `k1 == k2` has to imply `hash(k1) == hash(k2)` for `HashMap` keys.
+impl std::hash::Hash for Identifier {
+    fn hash<H: std::hash::Hasher>(&self, state: &mut H) {
+        self.name.hash(state);
+    }
 }
 
 impl Identifier {
